@@ -102,4 +102,7 @@ def ledgerOracles (dflt : Aff) (init : Option Status) (txs : List Tx) (impls : L
     let initAcb := match init with | some s => s.acb.getD 0 | none => 0
     oracleRows initAcb c3 complete 0 { books := Spec.Books.init dflt init, affs := [dflt] } rows
 
+def alignedRows (txs : List Tx) (impls : List ImplDelta) : List (Tx × ImplDelta) :=
+  (alignRows txs impls).getD []
+
 end Driver
